@@ -264,7 +264,17 @@ pub fn run_c17(env: &Env) -> Report {
                     let txt = format!("{}{}{}", lead, word, trail);
                     if txt.is_empty() || !txt.chars().all(crate::code_ok) { continue; }
                     if fixed && !txt.chars().all(|c| "kahoi'\"(.:".contains(c)) { continue; }
-                    let (oa, ob) = (a.type_text(&mut t, &txt), b.type_text(&mut t, &txt));
+                    // every prefix is an input too: the two contexts are compared after EVERY key
+                    let full_txt = txt.clone();
+                    let mut txt = String::new();
+                    let mut last_pair = (Obs::Unit, Obs::Unit);
+                    for ch in full_txt.chars() {
+                    txt.push(ch);
+                    let code = code_for_char(ch).unwrap();
+                    let sel_of = |s: &Sess| match &s.last { Obs::Full { sel, cands, .. } if *sel < cands.len() => (*sel).min(255) as u8, _ => 0 };
+                    let (sa0, sb0) = (sel_of(&a), sel_of(&b));
+                    let (oa, ob) = (a.key(&mut t, code, 0, sa0), b.key(&mut t, code, 0, sb0));
+                    last_pair = (oa.clone(), ob.clone());
                     rep.eval(Some(&format!("{}|{}|{}", fixed, o.bits_str(), txt)));
                     let ctx = json!({"stream": "c17", "layout": layout, "opts_on": on.bits_str(), "opts_off": off.bits_str(), "text": txt});
                     match (&oa, &ob) {
@@ -279,7 +289,10 @@ pub fn run_c17(env: &Env) -> Report {
                                 let cls = if raw_collides && (on.english || env.data.emoticons.contains_key(txt.as_str())) { "raw-text-collides-with-quoted-candidate" } else { "lists-differ-beyond-curling" };
                                 rep.violation("C17", cls, format!("text {:?}: on {:?} vs off {:?}", txt, ca, cb), ctx.clone());
                             } else if sa != sb {
-                                let cls = "selection-differs-with-learned-raw-text";
+                                // known shape only: the learned value of the word IS the raw word part (the user once chose the English candidate)
+                                let (_, wpart, _) = split(&txt, false);
+                                let learned_raw = ui % 3 == 0 && super::c05::store_sample().get(&wpart) == Some(&wpart);
+                                let cls = if learned_raw { "selection-differs-with-learned-raw-text" } else { "selection-differs" };
                                 rep.violation("C17", cls, format!("text {:?}: preselection {} (on) vs {} (off) in {:?}", txt, sa, sb, cb), ctx.clone());
                             }
                             // positive clause: every candidate that is not the raw typed text (or the emoticon's emoji) carries the
@@ -305,8 +318,9 @@ pub fn run_c17(env: &Env) -> Report {
                         (x, y) => { if x != y && !(matches!(x, Obs::Single { .. }) && matches!(y, Obs::Single { .. })) { rep.violation("C17", "suggestion-kind-differs", format!("text {:?}: {:?} vs {:?}", txt, x, y), ctx.clone()); }
                                     if let (Obs::Single { text: ta, .. }, Obs::Single { text: tb, .. }) = (x, y) { if ta != tb { rep.violation("C17", "single-suggestion-changed", format!("text {:?}: {:?} vs {:?} (suggestions off: quotes are never curled)", txt, ta, tb), ctx.clone()); } } }
                     }
+                    }
                     a.finish(&mut t); b.finish(&mut t);
-                    if rep.samples.len() < 2 { rep.sample(json!({"text": txt, "on": render_obs(&oa, true), "off": render_obs(&ob, true)})); }
+                    if rep.samples.len() < 2 { rep.sample(json!({"text": full_txt, "on": render_obs(&last_pair.0, true), "off": render_obs(&last_pair.1, true)})); }
                 }
             }
         }
@@ -337,9 +351,15 @@ pub fn run_c18(env: &Env) -> Report {
         let _ = seed;
         // phonetic: English on/off x smart quotes on/off
         let mut pcs: Vec<Sess> = vec![];
-        for b in 0..4u32 { let mut o = Opts::none(); o.phonetic_suggestion = true; o.english = b & 1 == 1; o.smart_quote = b & 2 == 2; if let Some(s) = Sess::new(&mut t, &env.data, &format!("p{}", b), PHONETIC, o, &xdg) { pcs.push(s); } }
+        // half of the contexts are created with ANSI output on and switched to non-ANSI by update_engine before use:
+        // "outside ANSI mode" is a property of the current configuration, not of how the context was born
+        for b in 0..4u32 { let mut o = Opts::none(); o.phonetic_suggestion = true; o.english = b & 1 == 1; o.smart_quote = b & 2 == 2;
+            let born_ansi = (b + ui as u32) % 2 == 0; let mut o0 = o; o0.ansi = born_ansi;
+            if let Some(mut s) = Sess::new(&mut t, &env.data, &format!("p{}", b), PHONETIC, o0, &xdg) { if born_ansi { s.update(&mut t, PHONETIC, o); } pcs.push(s); } }
         let mut fcs: Vec<Sess> = vec![];
-        for b in 0..8u32 { let mut o = Opts::none(); o.fixed_suggestion = true; o.vowel = true; o.chandra = true; o.english = b & 1 == 1; o.smart_quote = b & 2 == 2; o.kar = b & 4 == 4; if let Some(s) = Sess::new(&mut t, &env.data, &format!("f{}", b), &lay.probhat, o, &xdg) { fcs.push(s); } }
+        for b in 0..8u32 { let mut o = Opts::none(); o.fixed_suggestion = true; o.vowel = true; o.chandra = true; o.english = b & 1 == 1; o.smart_quote = b & 2 == 2; o.kar = b & 4 == 4;
+            let born_ansi = (b / 2 + ui as u32) % 2 == 0; let mut o0 = o; o0.ansi = born_ansi;
+            if let Some(mut s) = Sess::new(&mut t, &env.data, &format!("f{}", b), &lay.probhat, o0, &xdg) { if born_ansi { let lp = lay.probhat.clone(); s.update(&mut t, &lp, o); } fcs.push(s); } }
         // emoticons (phonetic): emoji offered, literal stays available
         for (i, (emo, emoji)) in emoticons.iter().enumerate() {
             if i % nunits != ui { continue; }
